@@ -28,6 +28,7 @@ func init() {
 			{ID: "C05.R9", Floor: 3, Run: c05r9, Text: "targets only on relation tables: at every call of a function that stores its Entity parameter into a table's RelationTarget (Init, Activate), the argument is the zero entity, or the node's HasRelation flag is known true at the call, or at every call of the enclosing function (two levels)"},
 			{ID: "C05.R10", Floor: 4, Run: c03r6, Text: "Count over a relation filter sums over all matching nodes (= C03.R6): the running total is never overwritten"},
 			{ID: "C05.R11", Floor: 1, Run: c05r11, Text: "target map ⇄ table target: every insert archetypeMap[K] = T is preceded on every path by a call that sets T's RelationTarget to the same K (Init or Activate of that table); every delete from the map uses the removed table's own RelationTarget as key"},
+			{ID: "C05.R12", Floor: 2, Run: moversKeepDeadTargets, Text: "the target is unchanged by adding or removing other components, alive or not (= C06.R8)"},
 		},
 	})
 }
